@@ -660,7 +660,10 @@ class PortCollection (object):
     if self._chain:
       p = self._chain[index]
       if p.port_no not in self._masks:
-        return p
+        # If we have our own (updated) version of this port, the parent's
+        # is stale -- e.g., looked up by a name or address it used to have
+        if not any(q.port_no == p.port_no for q in self._ports):
+          return p
 
     raise IndexError("No key %s" % (index,))
 
